@@ -1,5 +1,5 @@
 (* Props/C08.v — UDP datagrams are delivered intact for arbitrarily long sessions. *)
-Require Import Base.Bytes Net.Frame Net.FrameProofs Net.Framed Net.FramedProofs Net.Adaptor Net.AdaptorSession Net.Concrete Gen.NetConsts.
+Require Import Base.Bytes Net.Frame Net.FrameProofs Net.Framed Net.FramedProofs Net.Async Net.NoHoldBack Net.Adaptor Net.AdaptorSession Net.Concrete Gen.NetConsts.
 Local Open Scope N_scope.
 
 (* Both UDP adaptors are one model: receive the datagram into a scratch array, keep it in the
@@ -22,6 +22,30 @@ Theorem c08_session_intact :
     filter (keep packet) (session packet parse ver_of is_keepalive version m verify pong fuel [] (es ++ [Eof]))
       = concat (map (expected_frame packet parse ver_of is_keepalive version verify pong) (concat dgs)) ++ [Ret RDisconnected].
 Proof. exact udp_session. Qed.
+
+(* no packet waits for more traffic: a frame that is completely in the receive buffer is delivered by the next read() with
+   no further input from the transport (a peer that sends nothing more until its packets have been read is not kept waiting).
+   Blocking connection: the result is the frame's own, the rest of the buffer stays, the transport script is untouched ... *)
+Theorem c08_buffered_frame_is_served_without_more_input :
+  forall (packet : Type) (parse : bytes -> res packet) (ver_of : packet -> option N)
+         (is_keepalive : packet -> bool) (version : N) (m : mode) (verify : bool) (pong : bytes),
+  (forall b, parse b <> Panic) ->
+  forall f rest tr, wf_frame m f ->
+    read packet parse ver_of is_keepalive version m verify pong (f ++ rest) tr
+      = (expected_frame packet parse ver_of is_keepalive version verify pong f, rest, tr).
+Proof. exact read_serves_buffered_frame. Qed.
+
+(* ... tokio connection: a fresh read() with nothing parked does not touch the read half and does not suspend in the transport
+   read - it completes, or waits for the WRITE half to take a keep-alive reply *)
+Theorem c08_buffered_frame_is_served_without_more_input_async :
+  forall (packet : Type) (parse : bytes -> res packet) (ver_of : packet -> option N)
+         (is_keepalive : packet -> bool) (version : N) (m : mode) (verify : bool) (pong : bytes),
+  (forall b, parse b <> Panic) ->
+  forall f rest (s : fstate packet) rs ws, wf_frame m f ->
+    fbuf s = f ++ rest -> pend_w s = [] -> pend_p s = None ->
+    let '(o, s', rs', ws', w) := poll_from packet parse ver_of is_keepalive version m verify pong Top s rs ws in
+    rs' = rs /\ o <> PPending InRead.
+Proof. exact poll_serves_buffered_frame. Qed.
 
 (* the adaptor alone, any slice sizes: every chunk handed over is non-empty and the chunks, what is
    still buffered and what is still pending are together exactly the datagram payloads, in order *)
